@@ -3,7 +3,7 @@
  "name": "pop_inline_read_sparse",
  "props": ["C09", "C18"],
  "level": "U",
- "tier": "wip",
+ "tier": "quick",
  "harness": "h_inline_read_sparse",
  "functions": ["lib/ext2fs/fileio.c:ext2fs_file_read_inline_data"],
  "assumes": ["no contract enforced: harness CHECKs; ext2fs_inline_data_get is the stub over the ghost inline area of fileio/inline_common.h (may fail with an I/O error)",
